@@ -156,7 +156,6 @@ func Current() *Sim { return cur() }
 var SiteNames = map[int]string{}
 var siteMu sync.Mutex
 var harnessSites = map[string]int{}
-var nextHarnessSite = -1
 
 // RegisterSites is called from generated code.
 func RegisterSites(names []string) {
@@ -168,15 +167,23 @@ func RegisterSites(names []string) {
 }
 
 // HarnessSite returns a stable negative site id for a harness-owned
-// scheduling point.
+// scheduling point (a hash of the name, so that it does not depend on which
+// run of a process used it first).
 func HarnessSite(name string) int {
 	siteMu.Lock()
 	defer siteMu.Unlock()
 	if id, ok := harnessSites[name]; ok {
 		return id
 	}
-	id := nextHarnessSite
-	nextHarnessSite--
+	h := fnv.New32a()
+	h.Write([]byte(name))
+	id := -int(h.Sum32()&0x3fffffff) - 1
+	for {
+		if _, taken := SiteNames[id]; !taken {
+			break
+		}
+		id--
+	}
 	harnessSites[name] = id
 	SiteNames[id] = name
 	return id
